@@ -9,10 +9,19 @@ package main
 
 import (
 	"fmt"
+	"os"
+	"path/filepath"
 
 	"verif/internal/lcdref"
 	"verif/internal/rig"
 )
+
+func workDir() string {
+	if d := os.Getenv("VERIF_WORK"); d != "" {
+		return d
+	}
+	return os.TempDir()
+}
 
 type world struct {
 	c    *rig.Ctx
@@ -196,6 +205,7 @@ func run(c *rig.Ctx) {
 		w := newWorld()
 		total := int64(4+r.Intn(3)) * lcdref.FrameLen
 		next := int64(r.Intn(30000))
+		shotAt := int64(r.Intn(int(total)))
 		for w.t < total {
 			if w.t == next {
 				var v uint8
@@ -228,6 +238,17 @@ func run(c *rig.Ctx) {
 				}
 				if next == w.t {
 					continue
+				}
+			}
+			if i%4 == 3 && w.t == shotAt {
+				// the host asks for a screenshot (PPU.Screenshot, the front end's screenshot
+				// action): taking a picture is not a machine cycle
+				w.m.PPU.Screenshot(filepath.Join(workDir(), fmt.Sprintf("c13-shot-%d-%d.png", c.Shard, i)))
+				os.Remove(filepath.Join(workDir(), fmt.Sprintf("c13-shot-%d-%d.png", c.Shard, i)))
+				w.log("screenshot")
+				c.Count("screenshots_taken", 1)
+				if !w.check("right after a screenshot") {
+					return
 				}
 			}
 			if i%2 == 1 && r.Chance(1, 500) {
